@@ -93,7 +93,10 @@ pub fn run_workers(prop: &str, tier: &str, nshards: usize, extra: &[String], max
             c.arg("--resume-after").arg(r.to_string());
         }
         c.args(extra);
-        c.stdout(Stdio::piped()).stderr(Stdio::piped());
+        // output goes to files, not pipes: the workers are waited for one after the other, and a worker that
+        // reports many panics would otherwise block on a full pipe until its watchdog fires
+        let (of, ef) = (work.join(format!("stdout-{shard}")), work.join(format!("stderr-{shard}")));
+        c.stdout(Stdio::from(std::fs::File::create(&of).expect("worker stdout file"))).stderr(Stdio::from(std::fs::File::create(&ef).expect("worker stderr file")));
         (c.spawn().expect("spawn worker"), pf)
     };
     let mut results = vec![];
@@ -103,9 +106,18 @@ pub fn run_workers(prop: &str, tier: &str, nshards: usize, extra: &[String], max
             (s, c, pf, 0)
         })
         .collect();
-    while let Some((shard, child, pf, restarts)) = running.pop() {
-        let out = child.wait_with_output().expect("wait worker");
-        let stdout = String::from_utf8_lossy(&out.stdout).to_string();
+    struct Out {
+        status: std::process::ExitStatus,
+        stderr: Vec<u8>,
+    }
+    while let Some((shard, mut child, pf, restarts)) = running.pop() {
+        let status = child.wait().expect("wait worker");
+        let stdout = String::from_utf8_lossy(&std::fs::read(work.join(format!("stdout-{shard}"))).unwrap_or_default()).to_string();
+        let mut stderr = std::fs::read(work.join(format!("stderr-{shard}"))).unwrap_or_default();
+        if stderr.len() > 4096 {
+            stderr.drain(..stderr.len() - 4096);
+        }
+        let out = Out { status, stderr };
         let code = out.status.code();
         if code == Some(0) {
             match serde_json::from_str::<Value>(stdout.trim()) {
